@@ -127,6 +127,15 @@ def operand_matrix():
                 out.append((f"{oname} {op} {left_name}", "M", ["mrbin", op, o, left], mm))
     # products, reductions
     Q3 = [[2.0, -0.5, 0.25], [1.0, 1.5, 0.0], [-0.75, 0.5, 3.0]]
+    # vector on the LEFT of a constant 2-D array: NumPy's x @ M is M.T @ x (a size-k vector for an n x k array).  An API that does not
+    # offer the form rejects it; one that accepts it must mean what NumPy means
+    W32 = [[1.0, -2.0], [0.5, 0.25], [3.0, 1.0]]
+    for left_name, left in (("vecvar", _x), ("vexpr", ["vbin", "*", _x, ["raw", 2.0, "float"]]), ("slice", ["slice", _x, None, None, -1])):
+        out.append((f"{left_name} @ arr2(square-nonsymmetric)", "V", ["vM", left, Q3], False))
+        out.append((f"{left_name}.dot(arr2 square-nonsymmetric)", "V", ["vM", left, Q3, "dot"], False))
+        out.append((f"{left_name} @ nested-list(square-nonsymmetric)", "V", ["vM", left, Q3, "list"], False))
+        out.append((f"{left_name} @ arr2(3x2)", "V", ["vM", left, W32], False))
+        out.append((f"MISMATCH:{left_name} @ arr2(2x3)", "V", ["vM", left, [[1.0, -2.0, 0.5], [0.25, 3.0, 1.0]]], True))
     for oname, o in VEC_OPERANDS:
         # np.dot / @ do not broadcast: a size-1 operand is a mismatch here
         mm = oname.startswith("MISMATCH") or oname.endswith("size1")
